@@ -161,6 +161,25 @@ def direct_oracles(ctx, s, labels, inst, desc, stream, found):
     return {'lit': lit, 'rep': rep, 'exc': exc_name, 'dv': dv, 'result': r, 'in_domain': not te and not dv, 'te': te}
 
 
+def drift_note(ctx):
+    """Informational: which modelled functions changed (normalised ast digest) since the model was written."""
+    import re
+    try:
+        with open(os.path.join(vlib.COQ, 'Gen', 'SettingsTables.v')) as f:
+            g = f.read()
+        m = re.search(r'Definition gen_digests : [^\n]*:= \[(.*?)\]\.\n', g, flags=re.S)
+        now = dict(re.findall(r'\("([^"]+)", "([^"]+)"\)', m.group(1)))
+        with open(os.path.join(os.path.dirname(os.path.abspath(M.__file__)), 'c19_digests.json')) as f:
+            old = json.load(f)
+        changed = sorted(k for k in set(now) | set(old) if now.get(k) != old.get(k))
+        ctx.cov['source_digests'] = now
+        if changed:
+            ctx.notes.append('model drift: the ast of %s differs from the version the hand model was written against' % changed)
+            ctx.log('model drift (informational): %s' % changed)
+    except Exception as e:  # noqa
+        ctx.notes.append('drift note unavailable: %r' % (e,))
+
+
 def run(ctx):
     quick = ctx.tier == 'quick'
     found = []
@@ -169,6 +188,7 @@ def run(ctx):
     ctx.log('translator: %s' % msg)
     if not ok:
         tie_broken = msg
+    drift_note(ctx)
     res = vlib.proof_stage(ctx, 'Props/C19.v', model_targets=MODEL_TARGETS)
     ctx.log('proof stage ok=%s failing=%s' % (res['ok'], res['failing']))
     ctx.cov['trusted_base'] = [
@@ -185,7 +205,7 @@ def run(ctx):
     ]
     inst = G.installation()
     ctx.log('installation (measured directly): %s' % inst)
-    n_cases = 400 if quick else 6000
+    n_cases = 320 if quick else 6000
     rng = ctx.rng
     # ---------------------------------------------------------------- generated objects
     cases = []
